@@ -1125,6 +1125,9 @@ def eqRaises (a b : Val) : Option Bool :=
     | _ => some false
   | .tuple xs => match b with
     | .tuple ys => eqRaisesL xs ys   -- tuples have no length shortcut: the common prefix is compared first
+    -- XmlDate / XmlTime / XmlDateTime are NamedTuples: `tuple == XmlDate(…)` falls back to an
+    -- element-wise tuple comparison over fields the model does not know
+    | .opaque _ _ _ Option.none => if hasSNaNL xs then Option.none else some false
     | _ => some false
   | .dict kvs => match b with
     | .dict kvs' => if hasSNaNKV kvs || hasSNaNKV kvs' then Option.none else some false
@@ -1136,6 +1139,9 @@ def eqRaises (a b : Val) : Option Bool :=
     -- dataclass `__eq__`: same class, then the tuples of field values
     | .model c' ys => if c != c' || xs.length != ys.length then some false else eqRaisesL xs ys
     | _ => some false
+  | .opaque c cal ar Option.none => match b with
+    | .tuple ys => if hasSNaNL ys then Option.none else some false
+    | _ => some (leafRaises (.opaque c cal ar Option.none) b)
   | a' => some (leafRaises a' b)
 def eqRaisesL (xs ys : List Val) : Option Bool :=
   match xs with
